@@ -10,9 +10,11 @@ import (
 // VFS is the harness's file system: a set of names.  The CrashAt-th mutating operation is not
 // performed; the process dies there (panic VCrash).
 type VFS struct {
-	Files   map[string]bool
-	Ops     int
-	CrashAt int
+	Files      map[string]bool
+	Ops        int
+	CrashAt    int
+	Opened     string // last file opened for reading (Open)
+	SealedDocs string // suffix of the docs file the fraction's index was written for (.docs or .sdocs)
 }
 
 type VCrash struct{}
@@ -106,4 +108,23 @@ func vSkipWrite(args ...any) error { return nil }
 // VerifMarkNonEmpty makes a freshly created active fraction sealable (Seal refuses an empty one).
 func VerifMarkNonEmpty(a *Active) {
 	a.info.From, a.info.To, a.info.DocsTotal = 1, 1, 1
+}
+
+// Open is os.Open over the model.
+func (v *VFS) Open(name string) (*os.File, error) {
+	if !v.Files[name] {
+		return nil, fs.ErrNotExist
+	}
+	v.Opened = name
+	h := new(os.File)
+	vHandles[h] = name
+	return h, nil
+}
+
+// VerifDocsFileOf runs the real Sealed.openDocs for the fraction and reports the file it opens.
+func VerifDocsFileOf(base string) string {
+	s := &Sealed{BaseFileName: base}
+	VerifFS.Opened = ""
+	s.openDocs()
+	return VerifFS.Opened
 }
